@@ -65,7 +65,7 @@ CHECKS = {
  "C03": ("exploration",
   "runtime monitoring: hostile-peer workloads (authenticated frame injection hook, transport-parameter rewriting, unauthenticated datagram injection) under panic capture, error-class oracle, quiescence / response-count / retained-memory monitors (counting allocator) and a bystander-connection oracle",
   "Five workload groups against unmodified victims (server or client; ack-frequency on/off; CID lengths 0/8/20; datagrams on/off; tiny limits), each with a bystander connection on the victim endpoint that must complete undisturbed: 30 kinds of well-understood illegal frames with the close code QUIC prescribes; random / boundary-valued / malformed frame scripts in all three packet-number spaces; floods of ten kinds of state-touching frames with bounded response count and bounded retained memory; TLV-level mutations of transport parameters; structure-aware mutations of genuine datagrams and noise handed to Endpoint::handle in every connection state. Panics anywhere in quinn are caught and attributed by backtrace.",
-  "memory is observed as bytes retained by the case's thread (includes harness bookkeeping, bound leaves room); aborts (not panics) would kill the run; on the plaintext lane stateless-reset tokens are visible to the attacker, so resets are not judged here; an authenticated peer that keeps sending but never acknowledges makes sent-packet tracking grow in proportion to its own traffic - not judged",
+  "memory is observed as bytes retained by the case's thread (includes harness bookkeeping, bound leaves room); aborts (not panics) would kill the run; on the plaintext lane stateless-reset tokens are visible to the attacker, so resets are not judged here; growth of about 54 bytes per hostile packet against a peer that never acknowledges (sparse sent-packet deque) is below the flood bound and only measured",
   "DESIGN.md section 4 C03"),
  "C06": ("exploration",
   "runtime monitoring: authenticated hostile frames (injection hook) against a reference model of the limits the victim advertised on the wire + credit monitor against the application-side ledger + buffered-bytes probe",
